@@ -136,6 +136,9 @@ class Run:
         self.sim.w.close()
 
 
+_WARM = []
+
+
 def _key(arg):
     return '/'.join(arg[0]) + f'/bound={arg[1]}'
 
@@ -146,6 +149,12 @@ def _explore(acc, job):
     name = f'{scenario[0]}: {scenario[1]} || {scenario[2]}'
     outcomes = set()
     found = {}
+
+    if not _WARM:
+        # CPython 3.12 starts delivering per-instruction trace events for a code object only after the first traced call
+        # of it in the process: one throw-away run, so that the default schedule already has all scheduling points
+        _WARM.append(1)
+        Run((scenario[0], 'renew5', 'report'), []).go().close()      # a scenario that calls renew()
 
     def one(prefix):
         r = Run(scenario, prefix).go()
